@@ -1,7 +1,9 @@
-"""python3 lib/store_seeded.py <log> : store confirmed adversary changes from /tmp/mut-out/<prop>/<k> into seeded/<prop>-adv<k>/ using a try_mutant log"""
+"""python3 lib/store_seeded.py <log> [srcroot=/tmp/mut-out] [suffix=adv] : store confirmed adversary changes from /tmp/mut-out/<prop>/<k> into seeded/<prop>-adv<k>/ using a try_mutant log"""
 import json, os, re, shutil, sys
 ROOT = os.path.dirname(os.path.dirname(os.path.abspath(__file__)))
 log = open(sys.argv[1]).read()
+SRC = sys.argv[2] if len(sys.argv) > 2 else "/tmp/mut-out"
+SUF = sys.argv[3] if len(sys.argv) > 3 else "adv"
 for block in log.split("=== ")[1:]:
     head, _, rest = block.partition("\n")
     prop, k = head.strip().split("/")
@@ -11,10 +13,10 @@ for block in log.split("=== ")[1:]:
     m = re.search(r"check (\w+) (\w+): exit (\d+), (\d+) violation", rest)
     caught = bool(m and m.group(3) == "1" and int(m.group(4)) > 0)
     keys = re.findall(r"key=(\S.*?) obs=", rest)[:2]
-    src = f"/tmp/mut-out/{prop}/{k}"
+    src = f"{SRC}/{prop}/{k}"
     notes = open(os.path.join(src, "notes.md"), errors="replace").read()
     title = next((l.strip("# ").strip() for l in notes.split("\n") if l.strip()), "")[:200]
-    sid = f"{prop}-adv{k}"
+    sid = f"{prop}-{SUF}{k}"
     d = os.path.join(ROOT, "seeded", sid)
     if not (d0 and d1 and suite):
         print("NOT CONFIRMED", sid, d0, bool(d1), suite)
